@@ -143,9 +143,9 @@ func TestVerifC08Child(t *testing.T) {
 		c08Shape(env, 0, &sb)
 		rep.Shapes[l] = sb.String()
 		if fn, ok := f.function.(*starlark.Function); ok {
-			var sk strings.Builder
-			c08Skeleton(env, map[any]bool{}, &sk)
-			rep.Skel[l] = sk.String()
+			sk := &c08SkState{seen: map[any]bool{}, ord: map[*starlark.Dict]int{}}
+			c08Skeleton(env, sk)
+			rep.Skel[l] = sk.b.String()
 			rep.Graph[l] = c08Reify(fn)
 		}
 		// the decoded stamp equals the environment computed directly (what function.load + upToDate compare)
@@ -322,6 +322,29 @@ func c08Programs() []c08Prog {
 		{Name: "function-keyed-dict", Target: "//:t", Files: map[string]string{"BUILD.dawn": "def f():\n    pass\n\nD = {f: 1}\n\n@target()\ndef t():\n    print(D)\n"},
 			Muts: []c08Mut{{"value under a function key", "BUILD.dawn", "{f: 1}", "{f: 2}", true}}},
 	}
+	// two (three) different functions of one name that are in progress at the same time: closures called h made by
+	// different factories, lambdas; the edit re-points a reference from one of them to another (F24, fixed 7738be5)
+	progs = append(progs,
+		c08Prog{Name: "same-named-in-progress", Target: "//:t", Files: map[string]string{"BUILD.dawn": "def mkA(box):\n    def h(n):\n        return 0 if n == 0 else box[0](n - 1)\n    return h\n\ndef mkB(box):\n    def h(n):\n        return 0 if n == 0 else 1 + box[0](n - 1)\n    return h\n\nboxA = [None]\nboxB = [None]\nha = mkA(boxA)\nhb = mkB(boxB)\nboxA[0] = hb\nboxB[0] = ha\n\n@target()\ndef t():\n    print(ha(5))\n"},
+			Muts: []c08Mut{
+				{"second h calls itself instead of the first h", "BUILD.dawn", "boxB[0] = ha", "boxB[0] = hb", true},
+				{"body of the second h", "BUILD.dawn", "1 + box[0]", "2 + box[0]", true},
+			}},
+		c08Prog{Name: "three-same-named-in-progress", Target: "//:t", Files: map[string]string{"BUILD.dawn": "def mkA(box):\n    def h(n):\n        return 0 if n == 0 else box[0](n - 1)\n    return h\n\ndef mkB(box):\n    def h(n):\n        return 0 if n == 0 else 1 + box[0](n - 1)\n    return h\n\ndef mkC(box):\n    def h(n):\n        return 0 if n == 0 else 2 + box[0](n - 1)\n    return h\n\nboxA = [None]\nboxB = [None]\nboxC = [None]\nha = mkA(boxA)\nhb = mkB(boxB)\nhc = mkC(boxC)\nboxA[0] = hb\nboxB[0] = hc\nboxC[0] = ha\n\n@target()\ndef t():\n    print(ha(5))\n"},
+			Muts: []c08Mut{
+				{"third h calls the second h instead of the first", "BUILD.dawn", "boxC[0] = ha", "boxC[0] = hb", true},
+				{"third h calls itself instead of the first", "BUILD.dawn", "boxC[0] = ha", "boxC[0] = hc", true},
+				{"second h calls the first h instead of the third", "BUILD.dawn", "boxB[0] = hc", "boxB[0] = ha", true},
+			}},
+		c08Prog{Name: "lambdas-in-progress", Target: "//:t", Files: map[string]string{"BUILD.dawn": "boxA = [None]\nboxB = [None]\nla = lambda n: 0 if n == 0 else boxA[0](n - 1)\nlb = lambda n: 0 if n == 0 else 1 + boxB[0](n - 1)\nboxA[0] = lb\nboxB[0] = la\n\n@target()\ndef t():\n    print(la(5))\n"},
+			Muts: []c08Mut{
+				{"second lambda calls itself instead of the first lambda", "BUILD.dawn", "boxB[0] = la", "boxB[0] = lb", true},
+			}},
+		c08Prog{Name: "shared-container-and-helper", Target: "//:t", Files: map[string]string{"BUILD.dawn": "def helper(x):\n    return x + 1\n\nL = [helper]\n\ndef a():\n    return L[0](1)\n\ndef b():\n    return L[0](2) + helper(3)\n\ndef c():\n    return helper(4)\n\n@target()\ndef t():\n    print(a(), b(), c())\n"},
+			Muts: []c08Mut{
+				{"helper reached through a shared list and directly", "BUILD.dawn", "return x + 1", "return x + 2", true},
+				{"comment", "BUILD.dawn", "L = [helper]", "L = [helper]  # shared", false},
+			}})
 	return progs
 }
 
@@ -447,13 +470,37 @@ func c08Label(code []byte) int {
 
 var c08FnKeys = []string{"default parameter values", "free variables", "constant values", "predeclared values", "universal values", "function values", "global values"}
 
-// c08Skeleton prints, in pickling order, the tree of function environments that are expanded in the decoded value:
-// a function is a dict with "default parameter values"; later occurrences of the same object and placeholders print nothing.
-func c08Skeleton(v starlark.Value, seen map[any]bool, b *strings.Builder) {
+// c08Skeleton prints, in pickling order, the tokens of the decoded value that concern function environments:
+//
+//	F<label>( ... )  a function environment (a dict with "default parameter values") met for the first time, with the
+//	                 tokens of its parts inside;
+//	R<ordinal>       a placeholder ("recursive function", name, ordinal) for a function in progress;
+//	M<ordinal>       another occurrence of an already decoded function environment (a memo reference in the stamp);
+//	                 the ordinal is the number of function environments whose expansion started before that one.
+type c08SkState struct {
+	seen map[any]bool
+	ord  map[*starlark.Dict]int
+	b    strings.Builder
+}
+
+func c08Skeleton(v starlark.Value, st *c08SkState) {
+	seen, b := st.seen, &st.b
 	switch v := v.(type) {
 	case starlark.Tuple:
+		if len(v) >= 2 && len(v) <= 3 && v[0] == starlark.String("recursive function") {
+			ord := 999999
+			if len(v) == 3 {
+				if i, ok := v[2].(starlark.Int); ok {
+					if i64, ok := i.Int64(); ok {
+						ord = int(i64)
+					}
+				}
+			}
+			fmt.Fprintf(b, "R%d", ord)
+			return
+		}
 		for _, e := range v {
-			c08Skeleton(e, seen, b)
+			c08Skeleton(e, st)
 		}
 	case *starlark.List:
 		if seen[v] {
@@ -461,7 +508,7 @@ func c08Skeleton(v starlark.Value, seen map[any]bool, b *strings.Builder) {
 		}
 		seen[v] = true
 		for i := 0; i < v.Len(); i++ {
-			c08Skeleton(v.Index(i), seen, b)
+			c08Skeleton(v.Index(i), st)
 		}
 	case *starlark.Set:
 		if seen[v] {
@@ -471,21 +518,25 @@ func c08Skeleton(v starlark.Value, seen map[any]bool, b *strings.Builder) {
 		it := v.Iterate()
 		var e starlark.Value
 		for it.Next(&e) {
-			c08Skeleton(e, seen, b)
+			c08Skeleton(e, st)
 		}
 		it.Done()
 	case *starlark.Dict:
 		if seen[v] {
+			if o, isFn := st.ord[v]; isFn {
+				fmt.Fprintf(b, "M%d", o)
+			}
 			return
 		}
 		seen[v] = true
 		if _, isFn, _ := v.Get(starlark.String("default parameter values")); isFn {
 			code, _, _ := v.Get(starlark.String("code"))
 			cb, _ := code.(starlark.Bytes)
+			st.ord[v] = len(st.ord)
 			fmt.Fprintf(b, "F%d(", c08Label([]byte(cb)))
 			for _, k := range c08FnKeys {
 				if x, ok, _ := v.Get(starlark.String(k)); ok {
-					c08Skeleton(x, seen, b)
+					c08Skeleton(x, st)
 				}
 			}
 			b.WriteString(")")
@@ -495,99 +546,113 @@ func c08Skeleton(v starlark.Value, seen map[any]bool, b *strings.Builder) {
 			if _, hasNames, _ := v.Get(starlark.String("names")); hasNames {
 				for _, k := range c08FnKeys[2:] {
 					if x, ok, _ := v.Get(starlark.String(k)); ok {
-						c08Skeleton(x, seen, b)
+						c08Skeleton(x, st)
 					}
 				}
 				return
 			}
 		}
 		for _, kv := range v.Items() {
-			c08Skeleton(kv[0], seen, b)
-			c08Skeleton(kv[1], seen, b)
+			c08Skeleton(kv[0], st)
+			c08Skeleton(kv[1], st)
 		}
 	}
 }
 
-// c08Reify walks the live objects exactly as envPickler exposes them and returns the function graph.
+// c08Reify replays the encoder's traversal over the live objects, exactly as envPickler exposes them, and returns the
+// function graph: per function, the functions the encoder asks the pickler (or its memo) about while that function's
+// parts are pickled, in order.  Like the encoder it expands a list, dict or set only the first time it meets it (the
+// container is memoized before its elements), a code object only until it has been pickled once (memoized afterwards),
+// tuples every time (not memoized); every occurrence of a function is a mention, and a function's own parts are walked
+// when it is mentioned for the first time.  Identities are 1 + the order of first mention (= recursionPickler's ordinal).
 func c08Reify(root *starlark.Function) string {
+	type node struct {
+		id, label int
+		ms        []int
+	}
 	ids := map[*starlark.Function]int{}
-	var order []*starlark.Function
-	idOf := func(f *starlark.Function) int {
+	var nodes []*node
+	memo := map[any]bool{}
+	var mentions func(v starlark.Value, out *[]int)
+	var codeMentions func(c *starlark.FunctionCode, out *[]int)
+	var fnID func(f *starlark.Function) int
+	fnID = func(f *starlark.Function) int {
 		if id, ok := ids[f]; ok {
 			return id
 		}
-		ids[f] = len(ids) + 1
-		order = append(order, f)
-		return ids[f]
+		n := &node{id: len(ids) + 1, label: c08Label(f.Code().Bytecode())}
+		ids[f] = n.id
+		nodes = append(nodes, n)
+		defaults, freevars := f.Env()
+		mentions(defaults, &n.ms)
+		mentions(freevars, &n.ms)
+		codeMentions(f.Code(), &n.ms)
+		return n.id
 	}
-	var mentions func(v starlark.Value, seen map[any]bool, out *[]int)
-	var codeMentions func(c *starlark.FunctionCode, out *[]int, seen map[any]bool)
-	codeMentions = func(c *starlark.FunctionCode, out *[]int, seen map[any]bool) {
+	codeMentions = func(c *starlark.FunctionCode, out *[]int) {
+		if memo[c] {
+			return
+		}
 		module, globals := c.ModuleEnv()
 		// module = (names, constants, predeclared, universals, functions)
-		mentions(module[1], seen, out)
-		mentions(module[2], seen, out)
-		mentions(module[3], seen, out)
+		mentions(module[1], out)
+		mentions(module[2], out)
+		mentions(module[3], out)
 		for _, nested := range module[4].(starlark.Tuple) {
-			codeMentions(nested.(*starlark.FunctionCode), out, seen)
+			codeMentions(nested.(*starlark.FunctionCode), out)
 		}
-		mentions(globals, seen, out)
+		mentions(globals, out)
+		memo[c] = true
 	}
-	mentions = func(v starlark.Value, seen map[any]bool, out *[]int) {
+	mentions = func(v starlark.Value, out *[]int) {
 		switch v := v.(type) {
 		case *starlark.Function:
-			*out = append(*out, idOf(v))
+			id := fnID(v)
+			*out = append(*out, id)
 		case *starlark.FunctionCode:
-			codeMentions(v, out, seen)
+			codeMentions(v, out)
 		case starlark.Tuple:
 			for _, e := range v {
-				mentions(e, seen, out)
+				mentions(e, out)
 			}
 		case *starlark.List:
-			if seen[v] {
+			if memo[v] {
 				return
 			}
-			seen[v] = true
+			memo[v] = true
 			for i := 0; i < v.Len(); i++ {
-				mentions(v.Index(i), seen, out)
+				mentions(v.Index(i), out)
 			}
 		case *starlark.Dict:
-			if seen[v] {
+			if memo[v] {
 				return
 			}
-			seen[v] = true
+			memo[v] = true
 			for _, kv := range v.Items() {
-				mentions(kv[0], seen, out)
-				mentions(kv[1], seen, out)
+				mentions(kv[0], out)
+				mentions(kv[1], out)
 			}
 		case *starlark.Set:
-			if seen[v] {
+			if memo[v] {
 				return
 			}
-			seen[v] = true
+			memo[v] = true
 			it := v.Iterate()
 			var e starlark.Value
 			for it.Next(&e) {
-				mentions(e, seen, out)
+				mentions(e, out)
 			}
 			it.Done()
 		}
 	}
-	rootID := idOf(root)
+	rootID := fnID(root)
 	var parts []string
-	for i := 0; i < len(order); i++ {
-		f := order[i]
-		var ms []int
-		seen := map[any]bool{}
-		defaults, freevars := f.Env()
-		mentions(defaults, seen, &ms)
-		mentions(freevars, seen, &ms)
-		codeMentions(f.Code(), &ms, seen)
-		strs := make([]string, len(ms))
-		for j, m := range ms {
+	for _, n := range nodes {
+		strs := make([]string, len(n.ms))
+		for j, m := range n.ms {
 			strs[j] = strconv.Itoa(m)
 		}
-		parts = append(parts, fmt.Sprintf("%d:%d:%s", ids[f], c08Label(f.Code().Bytecode()), strings.Join(strs, ",")))
+		parts = append(parts, fmt.Sprintf("%d:%d:%s", n.id, n.label, strings.Join(strs, ",")))
 	}
 	return strconv.Itoa(rootID) + ";" + strings.Join(parts, ";")
 }
